@@ -202,6 +202,37 @@ def gen_cases(L, rng, n_orb, n_pal):
     clib.reb_tools_solve_kepler_pal.restype = None
     clib.reb_tools_particle_to_pal.restype = None
     cases = []
+    # the edges of the domain (deterministic): states that have no well-defined orbit, thresholds, extreme magnitudes
+    tn = 1e-308
+    P0 = [1.0, 0.1, -0.2, 0.3, 0.01, 0.02, -0.03]
+    st = [
+        ([1e-3, 1.1, -0.2, 0.3, 0.01, 0.02, -0.03], P0),                      # at rest relative to the primary (h = 0, e = 1)
+        ([1e-3, 1.1, -0.2, 0.3, 0.51, 0.02, -0.03], P0),                      # radial motion
+        ([1e-3, 1.1, 0.8, 0.3, -0.6, 0.9, -0.03], [1.0, 0.1, -0.2, 0.3, 0.0, 0.0, -0.03]),   # exactly planar, prograde
+        ([1e-3, 1.1, 0.8, 0.3, 0.6, -0.9, -0.03], [1.0, 0.1, -0.2, 0.3, 0.0, 0.0, -0.03]),   # exactly planar, retrograde (Pal singular)
+        ([0.0, 1.1, 0.8, 0.3, -0.6, 0.9, 0.1], [tn] + P0[1:]),                # primary mass == TINY
+        ([0.0, 1.1, 0.8, 0.3, -0.6, 0.9, 0.1], [math.nextafter(tn, 1.0)] + P0[1:]),
+        ([0.0, 1.1, 0.8, 0.3, -0.6, 0.9, 0.1], [-1.0] + P0[1:]),
+        ([1e-3] + P0[1:4] + [0.5, 0.6, 0.7], P0),                             # on top of the primary
+        ([1e-3, 1e200, 0.0, 0.0, 0.0, 1e-100, 0.0], [1.0, 0, 0, 0, 0, 0, 0]), # norms overflow
+        ([1e-3, 1e-200, 0.0, 0.0, 0.0, 1e100, 0.0], [1.0, 0, 0, 0, 0, 0, 0]), # norms underflow
+        ([1e-3, -0.0, 1.0, -0.0, -1.0, -0.0, -0.0], [1.0, 0, 0, 0, 0, 0, 0]), # signed zeros, circular
+        ([1e-3, float("nan"), 1.0, 0.0, -1.0, 0.0, 0.0], [1.0, 0, 0, 0, 0, 0, 0]),
+        ([1e-3, float("inf"), 1.0, 0.0, -1.0, 0.0, 0.0], [1.0, 0, 0, 0, 0, 0, 0]),
+        ([1e-3, 1.0, 0.0, 0.0, 0.0, math.sqrt(2.0), 0.0], [1.0, 0, 0, 0, 0, 0, 0]),          # parabolic: a infinite
+        ([1e-3, 1.0, 0.0, 0.0, 0.0, 1.0, 1e-9], [1.0, 0, 0, 0, 0, 0, 0]),                    # inc just above MIN_INC
+    ]
+    for pl, prl in st:
+        err = ctypes.c_int(0)
+        o = clib.reb_orbit_from_particle_err(1.0, L.mk_prim(pl), L.mk_prim(prl), ctypes.byref(err))
+        if err.value:
+            exp = [float(err.value)]
+        else:
+            exp = [0.0] + [getattr(o, f) for f in ORBIT_FIELDS] + [o.hvec.x, o.hvec.y, o.hvec.z, o.evec.x, o.evec.y, o.evec.z]
+        R = Rec2(L)
+        R.orbit(1.0, 0.0, pl, prl)
+        cases.append(("orbit_from_particle", "(ofp %s %s %s %s %s)" % (R.coq(), H(1.0), H(0.0), vlib.flist(pl), vlib.flist(prl)), exp,
+                      {"case": {"e": 0.0}, "particle": pl, "primary": prl, "err": err.value, "edge": True}))
     for i in range(n_orb):
         c = S.gen_orbit(rng)
         u = rng.random()
